@@ -1259,41 +1259,33 @@ theorem applyTip909_ok (s st : State) (B : Nat) (hbase : SameBase s st)
 
 /-! ### `create_builtins` establishes the pool invariant -/
 
-theorem createBuiltins_pools (s : State) : (createBuiltins s).pools =
-    if s.tip902 then ((s.pools.setIfNone poolMelSym builtinDefault).setIfNone poolMelErg builtinDefault).setIfNone
-        poolErgSym builtinDefault
-    else (s.pools.setIfNone poolMelSym builtinDefault).setIfNone poolMelErg builtinDefault := by
-  unfold createBuiltins AList.setIfNone
-  cases s.tip902 <;> simp
+theorem get_fixBuiltin_cases (m : AList PoolKey PoolState) (k k' : PoolKey) :
+    (fixBuiltin m k).get k' = m.get k' ∨ (fixBuiltin m k).get k' = some builtinDefault := by
+  unfold fixBuiltin
+  split
+  · by_cases e : k' = k
+    · subst e; right; exact AList.get_set_self _ _ _
+    · left; exact AList.get_set_ne _ _ e
+  · left; rfl
 
-theorem get_setIfNone_cases (m : AList PoolKey PoolState) (k k' : PoolKey) (v : PoolState) :
-    (m.setIfNone k v).get k' = m.get k' ∨ (m.setIfNone k v).get k' = some v := by
+theorem isSome_fixBuiltin_self (m : AList PoolKey PoolState) (k : PoolKey) :
+    ((fixBuiltin m k).get k).isSome = true := by
+  rw [get_fixBuiltin_self]; rfl
+
+theorem isSome_fixBuiltin_of (m : AList PoolKey PoolState) (k k' : PoolKey)
+    (h : (m.get k').isSome = true) : ((fixBuiltin m k).get k').isSome = true := by
   by_cases e : k' = k
-  · subst e
-    rw [AList.get_setIfNone_self]
-    cases h : m.get k' with
-    | none => right; rfl
-    | some q => left; rfl
-  · left; exact AList.get_setIfNone_ne m v e
-
-theorem isSome_setIfNone_self (m : AList PoolKey PoolState) (k : PoolKey) (v : PoolState) :
-    ((m.setIfNone k v).get k).isSome = true := by
-  rw [AList.get_setIfNone_self]; rfl
-
-theorem isSome_setIfNone_of (m : AList PoolKey PoolState) (k k' : PoolKey) (v : PoolState)
-    (h : (m.get k').isSome = true) : ((m.setIfNone k v).get k').isSome = true := by
-  by_cases e : k' = k
-  · subst e; exact isSome_setIfNone_self _ _ _
-  · rw [AList.get_setIfNone_ne m v e]; exact h
+  · subst e; exact isSome_fixBuiltin_self _ _
+  · rw [get_fixBuiltin_ne m e]; exact h
 
 theorem createBuiltins_get (s : State) (k : PoolKey) :
     (createBuiltins s).pools.get k = s.pools.get k ∨ (createBuiltins s).pools.get k = some builtinDefault := by
   have step : ∀ (m : AList PoolKey PoolState) (k2 : PoolKey),
       (m.get k = s.pools.get k ∨ m.get k = some builtinDefault) →
-      ((m.setIfNone k2 builtinDefault).get k = s.pools.get k ∨
-        (m.setIfNone k2 builtinDefault).get k = some builtinDefault) := by
+      ((fixBuiltin m k2).get k = s.pools.get k ∨
+        (fixBuiltin m k2).get k = some builtinDefault) := by
     intro m k2 h
-    rcases get_setIfNone_cases m k2 k builtinDefault with e | e
+    rcases get_fixBuiltin_cases m k2 k with e | e
     · rw [e]; exact h
     · right; exact e
   rw [createBuiltins_pools]
@@ -1310,23 +1302,21 @@ theorem createBuiltins_isSome (s : State) (k : PoolKey) (hk : k ∈ builtinsOf s
     rw [if_pos ht]
     simp only [List.mem_cons, List.not_mem_nil, or_false] at hk
     rcases hk with rfl | rfl | rfl
-    · exact isSome_setIfNone_of _ _ _ _ (isSome_setIfNone_of _ _ _ _ (isSome_setIfNone_self _ _ _))
-    · exact isSome_setIfNone_of _ _ _ _ (isSome_setIfNone_self _ _ _)
-    · exact isSome_setIfNone_self _ _ _
+    · exact isSome_fixBuiltin_of _ _ _ (isSome_fixBuiltin_of _ _ _ (isSome_fixBuiltin_self _ _))
+    · exact isSome_fixBuiltin_of _ _ _ (isSome_fixBuiltin_self _ _)
+    · exact isSome_fixBuiltin_self _ _
   · next ht =>
     rw [if_neg ht]
     simp only [List.mem_cons, List.not_mem_nil, or_false] at hk
     rcases hk with rfl | rfl
-    · exact isSome_setIfNone_of _ _ _ _ (isSome_setIfNone_self _ _ _)
-    · exact isSome_setIfNone_self _ _ _
+    · exact isSome_fixBuiltin_of _ _ _ (isSome_fixBuiltin_self _ _)
+    · exact isSome_fixBuiltin_self _ _
 
 theorem builtinDefault_facts : 0 < builtinDefault.lefts ∧ 0 < builtinDefault.rights ∧ 0 < builtinDefault.liqs ∧
     builtinDefault.lefts ≤ 2 ^ 125 ∧ builtinDefault.liqs ≤ U128_MAX := by decide
 
 theorem createBuiltins_ok (s : State)
     (hsane : ∀ k p, s.pools.get k = some p → (p.liqs ≠ 0 → 0 < p.lefts ∧ 0 < p.rights))
-    (hbuiltins : ∀ k ∈ [poolMelSym, poolMelErg, poolErgSym], ∀ p, s.pools.get k = some p →
-      0 < p.lefts ∧ 0 < p.rights ∧ 0 < p.liqs)
     (hnd : ∀ k ∈ [poolMelSym, poolMelErg, poolErgSym], ∀ p, (createBuiltins s).pools.get k = some p →
       drainOf s.txs k < p.liqs)
     (hres : ∀ p, s.pools.get poolMelSym = some p → p.lefts ≤ 2 ^ 125)
@@ -1343,9 +1333,32 @@ theorem createBuiltins_ok (s : State)
   · intro k hk
     obtain ⟨p, hp⟩ := Option.isSome_iff_exists.mp (createBuiltins_isSome s k hk)
     refine ⟨p, hp, ?_⟩
-    rcases createBuiltins_get s k with e | e
-    · rw [e] at hp; exact hbuiltins k (mem_builtinsOf_three hk) p hp
-    · rw [e] at hp; cases hp; exact ⟨d1, d2, d3⟩
+    -- since the `fix:` for F23 a builtin pool that records no liquidity is created afresh, so nothing has to
+    -- be assumed of the builtin pools beyond `hsane`
+    have hfix := createBuiltins_get_fixed s k (by
+      unfold builtinsOf at hk
+      split at hk
+      · next ht =>
+        simp only [List.mem_cons, List.not_mem_nil, or_false] at hk
+        rcases hk with e | e | e
+        · exact Or.inl e
+        · exact Or.inr (Or.inl e)
+        · exact Or.inr (Or.inr ⟨ht, e⟩)
+      · simp only [List.mem_cons, List.not_mem_nil, or_false] at hk
+        rcases hk with e | e
+        · exact Or.inl e
+        · exact Or.inr (Or.inl e))
+    rw [hp] at hfix
+    cases hq : s.pools.get k with
+    | none =>
+      rw [hq] at hfix; cases hfix; exact ⟨d1, d2, d3⟩
+    | some q =>
+      rw [hq] at hfix
+      by_cases hz : q.liqs = 0
+      · simp only [fixedPool, hz, if_true] at hfix; cases hfix; exact ⟨d1, d2, d3⟩
+      · simp only [fixedPool, hz, if_false] at hfix; cases hfix
+        obtain ⟨a, b⟩ := hsane k p hq hz
+        exact ⟨a, b, Nat.pos_of_ne_zero hz⟩
   · exact fun k hk p hp => hnd k (mem_builtinsOf_three hk) p hp
   · intro k hk
     obtain ⟨p, hp⟩ := Option.isSome_iff_exists.mp (createBuiltins_isSome s k hk)
@@ -1367,8 +1380,6 @@ theorem presealMelmint_ok (env : Env) (s : State)
     (hfaith : Faithful s.txs s.coins)
     (hn : (s.txs.map (·.hash)).Nodup)
     (hsane : ∀ k p, s.pools.get k = some p → (p.liqs ≠ 0 → 0 < p.lefts ∧ 0 < p.rights))
-    (hbuiltins : ∀ k ∈ [poolMelSym, poolMelErg, poolErgSym], ∀ p, s.pools.get k = some p →
-      0 < p.lefts ∧ 0 < p.rights ∧ 0 < p.liqs)
     (hnd : ∀ k ∈ [poolMelSym, poolMelErg, poolErgSym], ∀ p, (createBuiltins s).pools.get k = some p →
       drainOf s.txs k < p.liqs)
     (hres : ∀ p, s.pools.get poolMelSym = some p → p.lefts ≤ 2 ^ 125)
@@ -1376,7 +1387,7 @@ theorem presealMelmint_ok (env : Env) (s : State)
     (hV : melInflow s.txs ≤ 2 ^ 124) :
     ∃ st, presealMelmint env s = .ok st ∧ SameBase s st ∧ PoolsOk s.tip902 st.pools ∧
       (∀ p, st.pools.get poolMelSym = some p → p.lefts ≤ 2 ^ 125 + 2 ^ 124 + 2 ^ 124 + U128_MAX / 200) := by
-  obtain ⟨hpo, hnd0, hDmax, hB0⟩ := createBuiltins_ok s hsane hbuiltins hnd hres hu
+  obtain ⟨hpo, hnd0, hDmax, hB0⟩ := createBuiltins_ok s hsane hnd hres hu
   have hbase0 : SameBase s (createBuiltins s) := ⟨rfl, rfl, rfl, rfl, rfl⟩
   obtain ⟨s1, e1, hb1, hpo1, hci1, hnd1, hB1⟩ := processSwaps_ok s (createBuiltins s) (2 ^ 125) (2 ^ 124)
     hbase0 hn hpo ⟨hcounts, hfaith⟩ hnd0 hV hB0
@@ -1417,8 +1428,6 @@ theorem sealState_ok (env : Env) (s : State) (action : Option ProposerAction)
     (hfaith : Faithful s.txs s.coins)
     (hn : (s.txs.map (·.hash)).Nodup)
     (hsane : ∀ k p, s.pools.get k = some p → (p.liqs ≠ 0 → 0 < p.lefts ∧ 0 < p.rights))
-    (hbuiltins : ∀ k ∈ [poolMelSym, poolMelErg, poolErgSym], ∀ p, s.pools.get k = some p →
-      0 < p.lefts ∧ 0 < p.rights ∧ 0 < p.liqs)
     (hnd : ∀ k ∈ [poolMelSym, poolMelErg, poolErgSym], ∀ p, (createBuiltins s).pools.get k = some p →
       drainOf s.txs k < p.liqs)
     (hres : ∀ p, s.pools.get poolMelSym = some p → p.lefts ≤ 2 ^ 125)
@@ -1427,7 +1436,7 @@ theorem sealState_ok (env : Env) (s : State) (action : Option ProposerAction)
     (hfee : s.feePool + s.tips + 2 ^ 21 ≤ 2 ^ 127)
     (hh : s.height < TIP_909_HEIGHT + 128 * SUBSIDY_HALVING) :
     ∃ ss, sealState env s action = .ok ss := by
-  obtain ⟨s1, e1, hb1, hpo1, hB1⟩ := presealMelmint_ok env s hcounts hfaith hn hsane hbuiltins hnd hres hu hV
+  obtain ⟨s1, e1, hb1, hpo1, hB1⟩ := presealMelmint_ok env s hcounts hfaith hn hsane hnd hres hu hV
   have hU : U128_MAX = 340282366920938463463374607431768211455 := by decide
   have hlen : ¬ s1.pools.length < 2 := by
     obtain ⟨p1, h1, _⟩ := hpo1.builtins poolMelSym (melSym_mem_builtinsOf _)
